@@ -63,6 +63,7 @@ class LazyExecutor:
 def install_fs(fc_module, fs, vtime=None):
     fc_module.open = fs.open
     fc_module.os = fs.os
+    fc_module.shutil = fs.shutil
     fc_module.time = vtime or VTime()
     # the store layer above the cache does no file-system work of its own today; should it start to (a clean-up pass
     # on open, a marker file, ...), that work must meet the same simulated disk
@@ -77,6 +78,7 @@ def install_fs(fc_module, fs, vtime=None):
         if name.startswith("klongpy.db.") and mod is not None and mod is not fc_module:
             mod.os = fs.os
             mod.open = fs.open
+            mod.shutil = fs.shutil
 
 
 def sim_cache(cache, world):
